@@ -160,8 +160,22 @@ func copyTags(t map[string]string) map[string]string {
 	return o
 }
 
-func (x *c25exec) doPut(k string, size int64, tags map[string]string, class string, seed uint64, replaced string) {
+// content of a version: PRNG bytes from its seed, first byte shifted by the
+// variant (so a "different content" replacement is guaranteed to differ).
+func c25Content(seed uint64, size int64, variant int) []byte {
 	data := vkit.NewRand(seed).Bytes(int(size))
+	if len(data) > 0 {
+		data[0] += byte(variant)
+	}
+	return data
+}
+
+func (x *c25exec) doPut(k string, size int64, tags map[string]string, class string, seed uint64, replaced string) {
+	x.doPutVariant(k, size, tags, class, seed, 0, replaced)
+}
+
+func (x *c25exec) doPutVariant(k string, size int64, tags map[string]string, class string, seed uint64, variant int, replaced string) {
+	data := c25Content(seed, size, variant)
 	opts := &storage.PutObjectOptions{Tags: copyTags(tags)}
 	if class != "" && class != "STANDARD" {
 		c := class
@@ -191,7 +205,7 @@ func (x *c25exec) doPut(k string, size int64, tags map[string]string, class stri
 			if cl == "" {
 				cl = "STANDARD"
 			}
-			x.m.applyPut(k, &mVersion{ID: id, Size: size, Tags: copyTags(tags), Class: cl, ETag: et, Created: v.LastModified, ContentSeed: seed, Replaced: replaced})
+			x.m.applyPut(k, &mVersion{ID: id, Size: size, Tags: copyTags(tags), Class: cl, ETag: et, Created: v.LastModified, ContentSeed: seed, ContentVariant: variant, Replaced: replaced})
 			return
 		}
 	}
@@ -599,17 +613,22 @@ func (x *c25exec) maybeReplace(k string) {
 		return
 	}
 	x.replacedKey[k] = true
-	seed, size := cur.ContentSeed, cur.Size
+	seed, size, variant := cur.ContentSeed, cur.Size, cur.ContentVariant
 	if x.replaceMode == "different" {
-		seed++
+		variant++
 		if size == 0 {
 			size = 1
 		}
 	}
-	x.doPut(k, size, cur.Tags, cur.Class, seed, x.replaceMode)
+	x.doPutVariant(k, size, cur.Tags, cur.Class, seed, variant, x.replaceMode)
 	x.r.Count("replaced-after-listing."+x.replaceMode, 1)
-	if nv := x.m.current(k); nv != nil && x.replaceMode == "identical" && nv.ETag != cur.ETag {
-		x.discard = "identical-replacement-has-different-etag"
+	if nv := x.m.current(k); nv != nil {
+		if x.replaceMode == "identical" && nv.ETag != cur.ETag {
+			x.discard = "identical-replacement-has-different-etag"
+		}
+		if x.replaceMode == "different" && nv.ETag == cur.ETag {
+			x.discard = "different-replacement-has-identical-etag"
+		}
 	}
 }
 
@@ -626,7 +645,11 @@ func (s *recStorage) Stop(context.Context) error  { return nil }
 
 func (s *recStorage) foreign(b storage.BucketName, call string) bool {
 	if b.String() != s.x.bucket.String() {
+		// every other bucket of this database belongs to a finished scenario
+		// whose lifecycle configuration has been deleted
 		s.x.r.Count("calls-on-other-bucket."+call, 1)
+		act := c25action{Pass: s.x.pass, Call: call, Key: b.String(), Verdict: verdict{Sig: "acted-wrong:bucket-without-lifecycle-configuration"}}
+		s.x.record(act, nil, nil)
 		return true
 	}
 	return false
@@ -647,6 +670,9 @@ func (s *recStorage) ListObjects(ctx context.Context, b storage.BucketName, o st
 
 func (s *recStorage) ListObjectVersions(ctx context.Context, b storage.BucketName, o storage.ListObjectVersionsOptions) (*storage.ListObjectVersionsResult, error) {
 	s.x.r.Count("reconciler.calls.ListObjectVersions", 1)
+	if o.KeyMarker == nil && b.String() == s.x.bucket.String() {
+		s.x.ev.freezeListing()
+	}
 	return s.Next.ListObjectVersions(ctx, b, o)
 }
 
@@ -942,6 +968,7 @@ func runC25Scenario(r *vkit.Run, env *vkit.Env, inner storage.Storage, sc c25Sce
 		x.now = base.Add(offsetOf(p.Off))
 		x.replaceMode = p.Replace
 		x.replacedKey = map[string]bool{}
+		x.ev.listed = nil
 		x.passActions = 0
 		// targets whose only gate is this due instant
 		nTargets := 0
@@ -1037,8 +1064,8 @@ func runC25(tier, replay string) {
 		r.Finish()
 	}
 
-	n := r.N(480, 4000)
-	const workers = 4
+	n := r.N(480, 12000)
+	workers := r.N(4, 8)
 	const perEnv = 20
 	var wg sync.WaitGroup
 	var mu sync.Mutex
